@@ -10,6 +10,16 @@ claimed = {
          "Exact-arithmetic (Real) semantics of the SSA with margin 1e-9; assumes the SOIL domain; day composition and sub-step count are separate obligations (see DESIGN).", "§6 C01"),
  "C02": ("One call of the real nmove routine from an arbitrary symbolic state: per-layer update law with the three clamps, telescoping dispersion, convection = bottom + drain loss, uptake clamp and counters; the daily balance follows by linear arithmetic (DESIGN §6 C02). Flux sign patterns are enumerated exhaustively for n<=3.",
          "Real arithmetic, exp uninterpreted (>0); FLUX pre-conditions are the post-conditions proved for Water under C01; leaching depth at profile bottom.", "§6 C02"),
+ "C06": ("One Water step from an arbitrary state: every layer's new water content <= field capacity + the largest tabulated capillary-rise increment and >= one third of the wilting point when it started there; no division by zero; Init establishes the water state and W = PORGES below the groundwater table.",
+         "Real arithmetic; later sub-steps assume the sub-step uptake fits the water above the dryness limit (invariant set up by the first sub-step's clamp).", "§6 C06"),
+ "C07": ("One call of mineral (1-3 layers, frozen and warm branch) and of nmove (first / later sub-step): pool + mineralised counter constant per layer, pools and counters non-negative/monotone, dissolved <= applied, source term equals counter changes, uptake and fixation credited on the first sub-step only.",
+         "Real arithmetic; exp uninterpreted with natively evaluated lemma points at 60.5 C and monotonicity; NSTATE invariant assumed at entry and re-established.", "§6 C07"),
+ "C15": ("PTF1-3 ordering over all admissible texture triples, calcWRed strictly between WP and FC, setFieldCapacityWithGW (W = PORGES below the table, untouched above).",
+         "Real arithmetic; PTF4 is not decided (outside the claim).", "§6 C15"),
+ "C19": ("Soiltemp cut by the region lifter into prefix / one hourly iteration / suffix (verbatim source): diffusion number in [0,1/2] for all admissible BD, humus, water contents; one explicit step keeps every layer inside the envelope [lo,hi] of the previous profile and the boundary values (inductive step, any of the 24 iterations); daily means stay inside.",
+         "Real arithmetic, exp/pow uninterpreted with range axioms; induction over the 24 iterations and over days is by the partition of the function body (lifter) and the stated invariant.", "§6 C19"),
+ "C20": ("GetGroundWaterLevel on a symbolic ascending series of k<=3 (thorough 5) timestamps: exact hit, linear interpolation within neighbours, nearest value outside, no error for a non-empty series.",
+         "Real/Int arithmetic; map with symbolic keys modelled as association list with presence conditions.", "§6 C20"),
 }
 props = [json.loads(l) for l in open(os.path.join(ROOT, 'properties.jsonl'))]
 reasons = {}
